@@ -211,3 +211,15 @@ Fixpoint bspec (size : option nat) (seen : list nat) (ops : list bop) : list (li
   | BEvent n :: r => bspec size (seen ++ [n]) r
   | BReplay :: r => (match size with None => seen | Some k => lastn k seen end) :: bspec size seen r
   end.
+
+(* ---------- the publisher over a HISTORY of addObserver / removeObserver / events on ONE publisher ---------- *)
+Inductive pop := PAdd (o : nat) | PRem (o : nat) | PEv (n : nat).
+Definition preg (os : list nat) (o : pop) : list nat :=
+  match o with PAdd x => apply_act (OAdd x) os | PRem x => apply_act (ORemove x) os | PEv _ => os end.
+Definition pregs (os : list nat) (ops : list pop) : list nat := fold_left preg ops os.
+Fixpoint prun (tab : list lobs) (os : list nat) (ops : list pop) : list dlv :=
+  match ops with
+  | [] => []
+  | PEv n :: r => publish (S (length os)) (to_obs tab os) (Ev n) ++ prun tab os r
+  | o :: r => prun tab (preg os o) r
+  end.
